@@ -14,8 +14,7 @@ Definition C01_full_statement : Prop :=
    spawn queues empty unless the command is aborted (by the shell before the call, or by one of its own
    tasks during it). *)
 Theorem C01_settle_quiescent_partial : forall fuel cid H H',
-  cid < length (cmds H) ->
-  settle fuel cid H = Some H' -> was_aborted cid H' = false ->
+  was_aborted cid H = false -> settle fuel cid H = Some H' ->
   c_ready (gcmd cid H') = [] /\ c_spawnq (gcmd cid H') = [].
 Proof. exact settle_quiescent. Qed.
 
